@@ -256,7 +256,7 @@ func init() {
 			}
 			wg.Wait()
 			t.Sleep(6)
-			pc := p.Conns()[0]
+			pc := p.FirstConn()
 			if stall {
 				t.Check("enqueue_nonblocking", full > 0, "a stalled peer with a write queue of %d never produced a 'write queue full' error", wq)
 				t.Check("timing:enqueue_nonblocking", slowest < t.U(3), "a 'write queue full' error took %v: the caller was blocked", slowest)
@@ -332,7 +332,7 @@ func init() {
 			return
 		}
 		defer cl.Close(nil)
-		pc := p.Conns()[0]
+		pc := p.FirstConn()
 		var stream []byte
 		var want []string
 		for i := 0; i < 40; i++ {
@@ -447,8 +447,8 @@ func init() {
 			}
 		}
 		cl.Close(nil)
-		mu.Lock()
 		add(fmt.Sprintf("callbacks ping=%d after_reconnected=%d on_close=%d", atomic.LoadInt32(&t.pingCb), atomic.LoadInt32(&t.afterRec), atomic.LoadInt32(&t.onClose)))
+		mu.Lock()
 		canon := strings.Join(trace, " ; ")
 		mu.Unlock()
 		t.ev("c20.trace", "canon", canon, "connections", p.Dials())
@@ -479,7 +479,7 @@ func init() {
 		}
 		defer cl.Close(nil)
 		t.Sleep(11)
-		pc := p.Conns()[0]
+		pc := p.FirstConn()
 		ids := []string{}
 		for _, f := range pc.Frames() {
 			if f.WsKind == "ping" {
